@@ -53,7 +53,9 @@ func observe(vm *ds.Context, where string, c Case, s *rt.Section) *rt.Failure {
 			}
 		}},
 		{"Ret.ToJSON", func() {
-			if vm.Ret != nil {
+			// the JSON form of a value is a tree: shared sub-containers are written once per path, so a
+			// DAG of depth n has 2^n nodes (design limit, DESIGN.md §6.2) — only values whose tree is small are serialised
+			if vm.Ret != nil && treeNodes(vm.Ret, 200_000) < 200_000 {
 				_, _ = vm.Ret.ToJSON()
 			}
 		}},
@@ -65,7 +67,14 @@ func observe(vm *ds.Context, where string, c Case, s *rt.Section) *rt.Failure {
 		{"IsCalculateExists", func() { _ = vm.IsCalculateExists() }},
 		{"Attrs.ToJSON", func() {
 			if vm.Attrs != nil {
-				_, _ = vm.Attrs.ToJSON()
+				n := 0
+				vm.Attrs.Range(func(_ string, v *ds.VMValue) bool {
+					n += treeNodes(v, 200_000-n)
+					return n < 200_000
+				})
+				if n < 200_000 {
+					_, _ = vm.Attrs.ToJSON()
+				}
 			}
 		}},
 	}
@@ -80,6 +89,73 @@ func observe(vm *ds.Context, where string, c Case, s *rt.Section) *rt.Failure {
 	_ = d1
 	_ = d2
 	return nil
+}
+
+// treeNodes counts the nodes of v's tree unfolding (every path to a shared container counts), stopping at limit.
+func treeNodes(v *ds.VMValue, limit int) int {
+	if v == nil || limit <= 0 {
+		return 1
+	}
+	n := 1
+	switch v.TypeId {
+	case ds.VMTypeArray:
+		if ad, ok := v.ReadArray(); ok && ad != nil {
+			for _, e := range ad.List {
+				n += treeNodesPath(e, limit-n, 1)
+				if n >= limit {
+					return n
+				}
+			}
+		}
+	case ds.VMTypeDict:
+		if dd, ok := v.ReadDictData(); ok && dd != nil && dd.Dict != nil {
+			dd.Dict.Range(func(_ string, e *ds.VMValue) bool {
+				n += treeNodesPath(e, limit-n, 1)
+				return n < limit
+			})
+		}
+	case ds.VMTypeComputedValue:
+		if cd, ok := v.ReadComputed(); ok && cd != nil && cd.Attrs != nil {
+			cd.Attrs.Range(func(_ string, e *ds.VMValue) bool {
+				n += treeNodesPath(e, limit-n, 1)
+				return n < limit
+			})
+		}
+	}
+	return n
+}
+
+func treeNodesPath(v *ds.VMValue, limit, depth int) int {
+	if depth > 200 {
+		return limit // a cycle or a very deep value: treated as large
+	}
+	if v == nil || limit <= 0 {
+		return 1
+	}
+	n := 1
+	each := func(e *ds.VMValue) bool {
+		n += treeNodesPath(e, limit-n, depth+1)
+		return n < limit
+	}
+	switch v.TypeId {
+	case ds.VMTypeArray:
+		if ad, ok := v.ReadArray(); ok && ad != nil {
+			for _, e := range ad.List {
+				if !each(e) {
+					return n
+				}
+			}
+		}
+	case ds.VMTypeDict:
+		if dd, ok := v.ReadDictData(); ok && dd != nil && dd.Dict != nil {
+			dd.Dict.Range(func(_ string, e *ds.VMValue) bool { return each(e) })
+		}
+	case ds.VMTypeComputedValue:
+		if cd, ok := v.ReadComputed(); ok && cd != nil && cd.Attrs != nil {
+			cd.Attrs.Range(func(_ string, e *ds.VMValue) bool { return each(e) })
+		}
+	}
+	return n
 }
 
 func checkCase(c Case, s *rt.Section) *rt.Failure {
